@@ -133,7 +133,7 @@ func (s *c09Sched) step(i int) (e c09Ev, ok bool) {
 // scenarios
 
 type c09Thread struct {
-	kind            byte // 'i' ingest, 's' sweeper, 'h' handler
+	kind            byte // 'i' ingest, 's' sweeper, 'h' handler, 'c' configuration reload (blocklists the workers' covert address)
 	ph, sec, tr     int
 	cov, probe, liv bool
 	now             int64
@@ -295,11 +295,23 @@ func runC09(out *vlib.Out, sc *c09Scenario, prefixSched []int) c09Result {
 					rd.markActive(found)
 				}
 			})
+		case 'c':
+			// the SIGHUP handler: a freshly parsed configuration whose covert blocklist contains the
+			// address the workers' registrations name; OnReload swaps it in (no scheduling point inside)
+			mths = append(mths, "c")
+			s.spawn(i, func() {
+				conf := &RegConfig{EnableIPv4: true, EnableIPv6: true, CovertBlocklistSubnets: []string{"1.2.3.4/32"}}
+				conf.ParseBlocklists()
+				c09Reload(rm, conf)
+			})
 		}
 	}
 
 	// ---- run the schedule
 	doneTh := make([]bool, n)
+	stepNo := make([]int, n)       // steps taken by each thread
+	sweepSteps := make([][]string, n) // per sweeper: what each of its removal steps removed ("" = nothing)
+	reloadDone := false
 	var sched []int
 	var choices [][]int
 	fail := func(sig, what string) {
@@ -332,8 +344,21 @@ func runC09(out *vlib.Out, sc *c09Scenario, prefixSched []int) c09Result {
 			fail("C09:panic", fmt.Sprintf("thread %d panicked: %v", pick, e.pan))
 		}
 		doneTh[pick] = e.done
+		stepNo[pick]++
 		after := snapshot()
 		th := sc.ths[pick]
+		// a reload takes effect at once: a worker on the new-registration path reads the covert policy in
+		// its third step (exists, track, policy); if the reload has run by then its covert address is
+		// blocklisted and the worker must end there — no probe, no validation
+		if th.kind == 'c' {
+			reloadDone = true
+		}
+		if th.kind == 'i' && th.cov && stepNo[pick] == 3 && reloadDone {
+			out.Checked()
+			if !e.done {
+				fail("C09:stale-policy-after-reload", fmt.Sprintf("worker %d read the covert policy after the reload had blocklisted its covert address and went on towards validation", pick))
+			}
+		}
 		// removal events (only the sweeper removes)
 		var gone []string
 		for k := range before {
@@ -342,6 +367,13 @@ func runC09(out *vlib.Out, sc *c09Scenario, prefixSched []int) c09Result {
 			}
 		}
 		sort.Strings(gone)
+		if th.kind == 's' && stepNo[pick] > 1 {
+			g := ""
+			if len(gone) == 1 {
+				g = strings.Replace(gone[0], ",", ":", 1)
+			}
+			sweepSteps[pick] = append(sweepSteps[pick], g)
+		}
 		for _, k := range gone {
 			addEv("rm " + k + " " + vlib.B(before[k]))
 			sweepOrder[pick] = append(sweepOrder[pick], strings.Replace(k, ",", ":", 1))
@@ -385,10 +417,52 @@ func runC09(out *vlib.Out, sc *c09Scenario, prefixSched []int) c09Result {
 	// sweeper thread lines with the observed removal order; keys the sweeper collected but did not
 	// remove are not observable here, so the model is told the order of what was collected by asking
 	// the implementation before the run (same state: set-up only)
+	// The order in which the sweeper works through what it collected is Go's map order: the model is
+	// told the order that was observed. A removal step that removed something names its key; a step that
+	// removed nothing (the registration was activated in between) is the one collected key that is left
+	// over — if more than one is left over their order is not observable and the run is not compared.
+	ambiguous := false
 	for i, th := range sc.ths {
-		if th.kind == 's' {
-			mths[i] = fmt.Sprintf("s,%d,%s", sc.now, strings.Join(c09Collected(sc), "+"))
+		if th.kind != 's' {
+			continue
 		}
+		collected := c09Collected(sc)
+		order := append([]string(nil), sweepSteps[i]...)
+		left := map[string]bool{}
+		for _, k := range collected {
+			left[k] = true
+		}
+		for _, k := range order {
+			delete(left, k)
+		}
+		var rest []string
+		for k := range left {
+			rest = append(rest, k)
+		}
+		sort.Strings(rest)
+		blanks := 0
+		for _, k := range order {
+			if k == "" {
+				blanks++
+			}
+		}
+		if blanks > 1 && len(rest) > 1 {
+			ambiguous = true
+		}
+		for j, k := range order {
+			if k == "" && len(rest) > 0 {
+				order[j], rest = rest[0], rest[1:]
+			}
+		}
+		var clean []string
+		for _, k := range order {
+			if k != "" {
+				clean = append(clean, k)
+			}
+		}
+		// keys the sweeper has not come to yet (the run ended first) follow in any fixed order
+		clean = append(clean, rest...)
+		mths[i] = fmt.Sprintf("s,%d,%s", sc.now, strings.Join(clean, "+"))
 	}
 	_ = sweepOrder
 	var d, t []string
@@ -413,11 +487,12 @@ func runC09(out *vlib.Out, sc *c09Scenario, prefixSched []int) c09Result {
 	}
 	model := fmt.Sprintf("conc|600|21600|1,4|%s|%s|%s", strings.Join(mpre, ";"), strings.Join(mths, ";"), strings.Join(ss, ","))
 	impl := strings.Join(events, ";") + "|D:" + strings.Join(d, "/") + "|T:" + strings.Join(t, "/") + "|bad=0|done=" + vlib.B(allDone)
-	return c09Result{model: model, impl: impl, choices: choices, slow: time.Since(t0) >= c08SlowLimit}
+	return c09Result{model: model, impl: impl, choices: choices, slow: time.Since(t0) >= c08SlowLimit || ambiguous}
 }
 
-// c09Collected: which keys a sweeper starting right after the set-up would collect — at most one
-// expired key per scenario, so the removal order is unambiguous.
+// c09Collected: which keys a sweeper would collect — the registrations of the set-up that are expired
+// at the scenario's time (nothing a concurrent thread tracks is old enough, and a single sweeper
+// removes); in which order it then works through them is observed, see runC09.
 func c09Collected(sc *c09Scenario) []string {
 	w := newC08World()
 	var last map[string]int64 = map[string]int64{}
@@ -454,6 +529,8 @@ func c09Scenarios() []*c09Scenario {
 	S := c09Thread{kind: 's'}
 	H := func(ph, sec, tr int) c09Thread { return c09Thread{kind: 'h', ph: ph, sec: sec, tr: tr} }
 	old := []c08Op{{kind: 'r', ph: 1, sec: 3, tr: 0, now: 0}} // valid, unused, 11 min old at now=660
+	old2 := []c08Op{{kind: 'r', ph: 1, sec: 3, tr: 0, now: 0}, {kind: 'r', ph: 1, sec: 2, tr: 1, now: 0}}
+	C := c09Thread{kind: 'c'}
 	scs := []*c09Scenario{
 		{name: "dup2+sweeper+handler", pre: old, now: 660, ths: []c09Thread{I(0, 0, 0, true, false), I(0, 0, 0, true, false), S, H(0, 0, 0)}},
 		{name: "lost-activation", pre: old, now: 660, ths: []c09Thread{S, H(1, 3, 0)}},
@@ -463,6 +540,12 @@ func c09Scenarios() []*c09Scenario {
 		{name: "same-secret-two-transports", pre: nil, now: 100, ths: []c09Thread{I(0, 0, 0, false, false), I(0, 0, 1, false, false), H(0, 0, 1)}},
 		{name: "badcovert+dup", pre: nil, now: 100, ths: []c09Thread{{kind: 'i', ph: 0, sec: 0, tr: 0, cov: false, probe: true}, I(0, 0, 0, false, false), H(0, 0, 0)}},
 		{name: "reingest-expired", pre: old, now: 660, ths: []c09Thread{S, I(1, 3, 0, false, false), H(1, 3, 0)}},
+		// two expired registrations on one phantom (the sweeper's order is Go's map order), one of them
+		// looked up and activated meanwhile, a worker re-registering the other
+		{name: "two-expired", pre: old2, now: 660, ths: []c09Thread{S, H(1, 3, 0), I(1, 2, 1, false, false)}},
+		// one configuration reload among the workers: the covert policy changes under their feet
+		{name: "reload+ingest2", pre: nil, now: 100, ths: []c09Thread{I(0, 0, 0, false, false), I(0, 1, 1, true, false), C}},
+		{name: "reload+dup+handler", pre: nil, now: 100, ths: []c09Thread{I(0, 0, 0, true, false), I(0, 0, 0, false, false), C, H(0, 0, 0)}},
 	}
 	if vlib.Tier() == "thorough" {
 		scs = append(scs,
